@@ -118,6 +118,7 @@ type Unit struct {
 	curFrame     *Frame
 	copyRefs     map[string]string // objects modelling read-only copies of embedded arrays
 	calleeAllocAny   bool            // some callee may allocate objects of any type
+	calledNames      map[string]bool // function names asked about by called(F) in this unit's contract (nil: not yet collected)
 	calleeAllocNames map[string]bool // heaps in which callees with a typed allocates clause may allocate
 	cellN        int
 	obSeen       map[string]int
@@ -778,6 +779,9 @@ func (u *Unit) runFunc(fn *ssa.Function, args []Val, st *State, parent *Frame, p
 						aks[k] = true
 					}
 					for _, k := range sortedKeys(aks) {
+						if strings.HasPrefix(k, "called:") {
+							continue
+						}
 						hv, bv := "0", "0"
 						if v, ok := lc.head.answered[k]; ok {
 							hv = v
@@ -1427,6 +1431,12 @@ func (u *Unit) instr(f *Frame, st *State, ins ssa.Instruction) {
 					u.cellStatic(f, l.Cell, v)
 					return
 				}
+			}
+			if _, isFn := x.Val.Type().Underlying().(*types.Signature); isFn && u.con != nil && u.con.Wiring {
+				// wiring units: a function value stored into memory is opaque (arbitrary value)
+				nv := u.freshVal("fnval", x.Val.Type(), st)
+				u.storeLoc(st, l, nv.T)
+				return
 			}
 			u.errf("%s: store of non-term value (%s)", u.ctx.funcKey(f.fn), x.Val.Type())
 			return
